@@ -2,6 +2,7 @@ package replica
 
 import (
 	"github.com/openebs/jiva/types"
+	"github.com/openebs/jiva/zzfs"
 )
 
 // C12 — the chain stays a well-formed path and survives reopen unchanged.
@@ -60,10 +61,15 @@ func ZZ_C12_History() {
 	zzWellFormed("C12.initial", r)
 	for step := 0; step < k; step++ {
 		before := zzMemDigest(r)
+		headInode := zzInodeOf(r.info.Head)
 		r2, err, opname := zzDoOp(r, "op")
 		r = r2
 		after := zzMemDigest(r)
 		zzWellFormed("C12.after-"+opname, r)
+		if opname == "Snapshot" && err == nil {
+			// the snapshot just taken IS the data that was the head: same file, new name
+			zzAssert(zzInodeOf(r.info.Parent) == headInode, "C12.after-Snapshot.snapshot-is-not-the-former-head's-data")
+		}
 		if err != nil {
 			zzReach("C12.refused")
 			zzAssert(zzSameAttrs(before, after), "C12.refused-"+opname+"-changed-the-chain")
@@ -109,6 +115,7 @@ func ZZ_C12_RemovalHistory() {
 		ch, _ := r.Chain()
 		name := ch[zzConcretize(zzChoice("victim", len(ch)))]
 		before := zzMemDigest(r)
+		headInode := zzInodeOf(r.info.Head)
 		op := zzConcretize(zzChoice("op", 4))
 		var oerr error
 		opname := ""
@@ -139,6 +146,9 @@ func ZZ_C12_RemovalHistory() {
 		}
 		after := zzMemDigest(r)
 		zzWellFormed("C12.removal.after-"+opname, r)
+		if opname == "Snapshot" && oerr == nil {
+			zzAssert(zzInodeOf(r.info.Parent) == headInode, "C12.removal.after-Snapshot.snapshot-is-not-the-former-head's-data")
+		}
 		if oerr != nil {
 			zzReach("C12.removal.refused")
 			zzAssert(zzSameAttrs(before, after), "C12.removal.refused-"+opname+"-changed-the-chain")
@@ -331,4 +341,12 @@ func ZZ_C12_ChainLimit() {
 	zzAssert(refused, "C12.limit.no-snapshot-was-ever-refused")
 	types.MaxChainLength = saved
 	zzReach("C12.limit.done")
+}
+
+// zzInodeOf: identity of the data file behind a directory entry (0 if absent)
+func zzInodeOf(name string) int {
+	if ino := zzfs.Cur.Entries[name]; ino != nil {
+		return ino.ID
+	}
+	return 0
 }
